@@ -218,7 +218,8 @@ def run(ctx):
     # every pair of times and every pair of durations (whole representable range)
     for t in ("time", "dur"):
         idx = [p["i"] for p in pool if p["v"]["t"] == t]
-        pairs += [(a, b) for a in idx for b in idx if a != b]
+        tp = [(a, b) for a in idx for b in idx if a != b]
+        pairs += rnd.sample(tp, min(len(tp), 120)) if ctx.quick() else tp
     chosen = set(pairs)
     want = len(pairs) + (200 if ctx.quick() else 4000)
     nbase = sum(1 for p in pool if p.get("grp", -1) < 0)
